@@ -108,14 +108,33 @@ def hyper(repo, limit, layer_indexes=NOT_GIVEN, tune_filters="none",
   return aq, c, o
 
 
-EXPECT = {   # role suffix -> (table, limit index)
-    "kernel": ("kernel", 0),
-    "bias": ("bias", 1),
-    "pointwise_kernel": ("pointwise_kernel", 2),
-    "recurrent_kernel": ("recurrent_kernel", 2),
-    "recurrent_activation": ("recurrent_activation", -1),
-    "activation": ("activation", -1),
+# Documented limit formats: non-recurrent classes [weight, bias,
+# activation], recurrent classes [weight, bias, recurrent, activation].  A
+# pointwise kernel is a weight ("limit is same as kernel"); the recurrent
+# kernel has its own entry.  role -> (table, index into the class's list)
+EXPECT = {
+    "LSTM": ([4, 8, 2, 16], {
+        "kernel": ("kernel", 0), "bias": ("bias", 1),
+        "recurrent_kernel": ("recurrent_kernel", 2),
+        "recurrent_activation": ("recurrent_activation", -1),
+        "activation": ("activation", -1)}),
+    "SeparableConv2D": ([4, 8, 16], {
+        "kernel": ("kernel", 0), "bias": ("bias", 1),
+        "pointwise_kernel": ("pointwise_kernel", 0),
+        "activation": ("activation", -1)}),
 }
+
+
+def explain_offer(offered, lim):
+  """Which (table, limit entry) yields exactly this offer."""
+  if offered is None:
+    return "nothing"
+  for table in FIELDS:
+    for idx in range(len(lim)):
+      if sorted(offered) == sorted("%s_%d" % (table, b) for b in BITS
+                                   if b <= lim[idx]):
+        return "%s table filtered by limit[%d]" % (table, idx)
+  return "an offer no (table, limit entry) pair explains"
 
 
 def rule_get_quantizer(rep, repo):
@@ -126,37 +145,41 @@ def rule_get_quantizer(rep, repo):
   unit = "%s::AutoQKHyperModel._get_quantizer" % aq.relpath
   rep.unit(unit)
   loc = aq.loc(fn)
-  lim = [4, 8, 2, 16]      # kernel, bias, recurrent/pointwise, activation
-  for lname in ("L", "kernel_L", "bias_L"):
-    for role, (table, idx) in sorted(EXPECT.items()):
-      _, _, o = hyper(repo, {"LSTM": list(lim)})
-      pe = PE(repo)
-      hp = Hp()
-      f = Func(fn, aq, [], "_get_quantizer", o, c)
-      try:
-        r = pe.call_func(f, [hp.mock(), lname + "_" + role, lname, "LSTM"],
-                         {"is_kernel": "kernel" in role})
-      except PyRaise as e:
-        rep.fail("R2", unit, "raises:%s" % role, "_get_quantizer raises %s "
-                 "for role %s" % (e, role), loc=loc)
-        continue
-      offered = hp.calls[-1][2] if hp.calls else None
-      want = sorted("%s_%d" % (table, b) for b in BITS if b <= lim[idx])
-      tag = role if lname == "L" else "%s@layer-name-contains-%s" % (
-          role, lname.split("_")[0])
-      rule = "R2"
-      rep.check(offered is not None and sorted(offered) == want, rule, unit,
-                "role-limit:" + tag,
-                "for the %s of a layer named %r the tuner is offered %s; the "
-                "%s table filtered by limit[%d]=%d is %s" %
-                (role, lname, offered, table, idx, lim[idx], want), loc=loc,
-                facts={"role": role, "layer_name": lname})
-      if offered is not None and sorted(offered) == want:
-        name, bits = r
-        rep.check(tagged_config()[table].get(name) == bits, "R1", unit,
-                  "returned-bits:" + tag,
-                  "returned (%r, %r): the bit width is not the table's" %
-                  (name, bits), loc=loc)
+  for cls, (lim, roles) in sorted(EXPECT.items()):
+    for lname in ("L", "kernel_L", "bias_L"):
+      for role, (table, idx) in sorted(roles.items()):
+        _, _, o = hyper(repo, {cls: list(lim)})
+        pe = PE(repo)
+        hp = Hp()
+        f = Func(fn, aq, [], "_get_quantizer", o, c)
+        try:
+          r = pe.call_func(f, [hp.mock(), lname + "_" + role, lname, cls],
+                           {"is_kernel": "kernel" in role})
+        except PyRaise as e:
+          rep.fail("R2", unit, "raises:%s" % role, "_get_quantizer raises "
+                   "%s for role %s of a %s" % (e, role, cls), loc=loc)
+          continue
+        offered = hp.calls[-1][2] if hp.calls else None
+        want = sorted("%s_%d" % (table, b) for b in BITS
+                      if b <= lim[idx])
+        tag = role if lname == "L" else "%s@layer-name-contains-%s" % (
+            role, lname.split("_")[0])
+        ok = offered is not None and sorted(offered) == want
+        # the finding is identified by what is offered instead, so that a
+        # different wrong table / limit entry is a different finding
+        rep.check(ok, "R2", unit, "role-limit:%s:%s:gets %s" % (
+            cls, tag, explain_offer(offered, lim)),
+                  "for the %s of a %s layer named %r the tuner is offered "
+                  "%s; the %s table filtered by limit[%d]=%d is %s" %
+                  (role, cls, lname, offered, table, idx, lim[idx], want),
+                  loc=loc, facts={"role": role, "layer_name": lname,
+                                  "class": cls})
+        if ok:
+          name, bits = r
+          rep.check(tagged_config()[table].get(name) == bits, "R1", unit,
+                    "returned-bits:" + tag,
+                    "returned (%r, %r): the bit width is not the table's" %
+                    (name, bits), loc=loc)
   # R1 orientation with every limit value, kernel role
   for limit_bits in (1, 2, 3, 8, 16, 32):
     _, _, o = hyper(repo, {"Dense": [limit_bits, 4, 4]})
